@@ -505,38 +505,47 @@ class C16Oracle(BaseOracle):
                                   % (mode, raw, f, val, type(raw[f]).__name__),
                                   explainer=k, mode=mode, cls=ecfg["cls"], vtype=type(raw[f]).__name__,
                                   zero_factor=bool(factor == 0))
-            if factor == 0:
+            exact = all(_is_exactnum(x) for x in vals) and all(_is_exactnum(x) for x in norm.values())
+            sraw = sum(abs(float(x)) for x in vals)
+            nv = list(norm.values())
+            all_zero_norm = all(x == 0 for x in nv)
+            # "numerically zero" normaliser: float summation order/compensation may or may not give exactly 0
+            numerically_zero = (factor == 0) if exact else abs(float(factor)) <= 4 * len(vals) * EPS * sraw
+            if all_zero_norm:
+                if not numerically_zero and any(x != 0 for x in vals):
+                    return self.v("normalised-all-zero", "mode=%s raw=%r normalised=%r although the normaliser %r is not zero"
+                                  % (mode, raw, norm, factor), explainer=k, mode=mode)
                 self.probe("zero_normaliser_" + mode)
                 self.probe("zero_normaliser_type_" + type(vals[0]).__name__)
-                for f, val in norm.items():
-                    if not (val == 0):
-                        return self.v("zero-normaliser-not-zero", "mode=%s raw=%r normalised=%r" % (mode, raw, norm),
-                                      explainer=k, mode=mode)
-            else:
-                self.probe("normalised_" + mode)
-                exact = all(_is_exactnum(x) for x in vals)
-                mx = max(abs(float(x)) for x in vals)
-                for f in raw:
-                    back = norm[f] * factor
-                    if exact and _is_exactnum(norm[f]):
-                        if back != raw[f]:
-                            return self.v("ratios-not-preserved", "mode=%s %r*%r != %r" % (mode, norm[f], factor, raw[f]),
-                                          explainer=k, mode=mode)
-                    elif abs(float(back) - float(raw[f])) > 16 * EPS * max(mx, abs(float(raw[f]))):
-                        return self.v("ratios-not-preserved", "mode=%s %r*%r != %r" % (mode, norm[f], factor, raw[f]),
-                                      explainer=k, mode=mode)
-                nv = list(norm.values())
-                sabs = sum(abs(float(x)) for x in nv)
-                if mode == "sum":
-                    tot = 0
-                    for x in nv:
-                        tot = tot + x
-                    if abs(float(tot) - 1.0) > 16 * EPS * (len(nv) + 1) * max(1.0, sabs):
-                        return self.v("sum-not-one", "normalised values %r add up to %r" % (norm, tot), explainer=k)
+                continue
+            if factor == 0 and exact:
+                return self.v("zero-normaliser-not-zero", "mode=%s raw=%r normalised=%r" % (mode, raw, norm),
+                              explainer=k, mode=mode)
+            self.probe("normalised_" + mode)
+            # ratios: cross-multiplication against the largest raw value (robust to cancellation in the factor)
+            piv = max(raw, key=lambda f: abs(float(raw[f])))
+            for f in raw:
+                lhs, rhs = norm[f] * raw[piv], norm[piv] * raw[f]
+                if exact:
+                    bad = lhs != rhs
                 else:
-                    rng_ = max(nv) - min(nv)
-                    if abs(float(rng_) - 1.0) > 16 * EPS * (len(nv) + 1) * max(1.0, sabs):
-                        return self.v("range-not-one", "normalised values %r have range %r" % (norm, rng_), explainer=k)
+                    bad = abs(float(lhs) - float(rhs)) > 16 * EPS * max(abs(float(lhs)), abs(float(rhs))) + 1e-300
+                if bad:
+                    return self.v("ratios-not-preserved", "mode=%s raw=%r normalised=%r (features %r, %r)"
+                                  % (mode, raw, norm, f, piv), explainer=k, mode=mode)
+            sabs = sum(abs(float(x)) for x in nv)
+            if mode == "sum":
+                tot = 0
+                for x in nv:
+                    tot = tot + x
+                bad = (tot != 1) if exact else abs(float(tot) - 1.0) > 16 * EPS * (len(nv) + 1) * max(1.0, sabs)
+                if bad:
+                    return self.v("sum-not-one", "normalised values %r add up to %r" % (norm, tot), explainer=k, mode=mode)
+            else:
+                rng_ = max(nv) - min(nv)
+                bad = (rng_ != 1) if exact else abs(float(rng_) - 1.0) > 16 * EPS * (len(nv) + 1) * max(1.0, sabs)
+                if bad:
+                    return self.v("range-not-one", "normalised values %r have range %r" % (norm, rng_), explainer=k, mode=mode)
         # variances
         var = e.variances
         for f, val in var.items():
